@@ -125,6 +125,7 @@ pub fn worker_main(engine: &dyn Engine, args: &[String]) -> i32 {
     // the protocol goes to a private duplicate of fd 1; fd 1 itself is pointed at
     // /dev/null so that whatever the system under test prints cannot corrupt it
     // (engines that need the output redirect fd 1 to a memfd around the evaluation)
+    let recycle_mb: u64 = std::env::var("VERIF_RECYCLE_MB").ok().and_then(|s| s.parse().ok()).unwrap_or(700);
     let proto = crate::procio::take_over_stdout();
     let mut out = std::io::BufWriter::new(proto);
     let mut counters: BTreeMap<String, u64> = BTreeMap::new();
@@ -183,11 +184,28 @@ pub fn worker_main(engine: &dyn Engine, args: &[String]) -> i32 {
         if n % 200 == 199 {
             emit_stats(&mut out, &mut counters, &mut steps, &mut sched, &mut sched_nontrivial, &mut states, &mut samples);
         }
+        // Ruschm's environments are reference cycles: every interpreter a run creates
+        // stays allocated. A worker therefore retires itself when it has grown, and the
+        // coordinator starts a fresh process for the rest of its indices.
+        if n % 50 == 49 && n + 1 < indices.len() && resident_mb() > recycle_mb {
+            emit_stats(&mut out, &mut counters, &mut steps, &mut sched, &mut sched_nontrivial, &mut states, &mut samples);
+            writeln!(out, "PARTIAL {}", i + 1).unwrap();
+            out.flush().unwrap();
+            return 0;
+        }
     }
     emit_stats(&mut out, &mut counters, &mut steps, &mut sched, &mut sched_nontrivial, &mut states, &mut samples);
     writeln!(out, "DONE").unwrap();
     out.flush().unwrap();
     0
+}
+
+fn resident_mb() -> u64 {
+    std::fs::read_to_string("/proc/self/statm")
+        .ok()
+        .and_then(|s| s.split_whitespace().nth(1).and_then(|x| x.parse::<u64>().ok()))
+        .map(|pages| pages * 4096 / (1 << 20))
+        .unwrap_or(0)
 }
 
 #[allow(clippy::too_many_arguments)]
@@ -238,6 +256,7 @@ struct Aggregate {
     invalid: Vec<String>,
     log_hashes: BTreeMap<u64, String>,
     deaths: Vec<(u64, u64, String)>,
+    partial_from: Option<u64>,
 }
 
 struct WorkerReport {
@@ -340,10 +359,70 @@ fn absorb(agg: &mut Aggregate, rep: &WorkerReport) -> (bool, Option<(u64, u64)>)
                 }
             }
             "DONE" => done = true,
+            "PARTIAL" => {
+                agg.partial_from = rest.trim().parse().ok();
+            }
             _ => {}
         }
     }
     (done, pending)
+}
+
+
+/// one worker slot: indices w, w+n, ... < total, in as many processes as it takes
+/// (a worker that retires itself or dies is continued by a fresh process)
+fn run_worker_slot(
+    prop: &'static str,
+    tier: &str,
+    base: u64,
+    w: u64,
+    nworkers: u64,
+    total: u64,
+    max_deaths: usize,
+) -> Vec<(WorkerReport, Option<(u64, u64)>)> {
+            let mut reports: Vec<(WorkerReport, Option<(u64, u64)>)> = vec![];
+            let mut from = 0u64;
+            loop {
+                let rep = spawn_worker(
+                    prop,
+                    tier,
+                    base,
+                    &[
+                        w.to_string(),
+                        nworkers.to_string(),
+                        total.to_string(),
+                        from.to_string(),
+                    ],
+                );
+                let mut tmp = Aggregate::default();
+                let (done, pending) = absorb(&mut tmp, &rep);
+                if done && rep.success {
+                    reports.push((rep, None));
+                    break;
+                }
+                if let (Some(next), true) = (tmp.partial_from, rep.success) {
+                    // the worker retired itself; continue with a fresh process
+                    reports.push((rep, None));
+                    from = next;
+                    continue;
+                }
+                match pending {
+                    Some((i, s)) => {
+                        from = i + 1;
+                        reports.push((rep, Some((i, s))));
+                        if reports.iter().filter(|r| r.1.is_some()).count() > max_deaths {
+                            // enough process deaths to fail the check; do not burn the machine
+                            break;
+                        }
+                    }
+                    None => {
+                        // died outside any run: harness problem
+                        reports.push((rep, Some((u64::MAX, 0))));
+                        break;
+                    }
+                }
+            }
+            reports
 }
 
 pub struct KnownFinding {
@@ -414,45 +493,7 @@ pub fn check_main(engine: &'static dyn Engine, tier: &str) -> i32 {
     let max_deaths = engine.max_deaths_per_worker();
     for w in 0..nworkers {
         let tier = tier.to_string();
-        handles.push(std::thread::spawn(move || {
-            let mut reports: Vec<(WorkerReport, Option<(u64, u64)>)> = vec![];
-            let mut from = 0u64;
-            loop {
-                let rep = spawn_worker(
-                    prop,
-                    &tier,
-                    base,
-                    &[
-                        w.to_string(),
-                        nworkers.to_string(),
-                        total.to_string(),
-                        from.to_string(),
-                    ],
-                );
-                let mut tmp = Aggregate::default();
-                let (done, pending) = absorb(&mut tmp, &rep);
-                if done && rep.success {
-                    reports.push((rep, None));
-                    break;
-                }
-                match pending {
-                    Some((i, s)) => {
-                        from = i + 1;
-                        reports.push((rep, Some((i, s))));
-                        if reports.len() > max_deaths {
-                            // enough process deaths to fail the check; do not burn the machine
-                            break;
-                        }
-                    }
-                    None => {
-                        // died outside any run: harness problem
-                        reports.push((rep, Some((u64::MAX, 0))));
-                        break;
-                    }
-                }
-            }
-            reports
-        }));
+        handles.push(std::thread::spawn(move || run_worker_slot(prop, &tier, base, w, nworkers, total, max_deaths)));
     }
     let mut harness_errors: Vec<String> = vec![];
     for h in handles {
@@ -915,19 +956,13 @@ pub fn selfcheck_main(
         let run = |workers: u64| -> BTreeMap<u64, String> {
             let mut hs = vec![];
             for w in 0..workers {
-                hs.push(std::thread::spawn(move || {
-                    spawn_worker(
-                        prop,
-                        "quick",
-                        base,
-                        &[w.to_string(), workers.to_string(), n.to_string(), "0".into()],
-                    )
-                }));
+                hs.push(std::thread::spawn(move || run_worker_slot(prop, "quick", base, w, workers, n, 1000)));
             }
             let mut agg = Aggregate::default();
             for h in hs {
-                let rep = h.join().unwrap();
-                absorb(&mut agg, &rep);
+                for (rep, _) in h.join().unwrap() {
+                    absorb(&mut agg, &rep);
+                }
             }
             agg.log_hashes
         };
